@@ -75,7 +75,7 @@ PROPS = {
     },
     "C12": {
         "level": "exploration",
-        "stages": [native("threads"), miri("miri-virtual-clock", scale=0.008, miriflags="-Zmiri-preemption-rate=0.05") | {"scale_thorough": 0.008}],
+        "stages": [native("threads", timeout_thorough=4200), miri("miri-virtual-clock", scale=0.008, miriflags="-Zmiri-preemption-rate=0.05") | {"scale_thorough": 0.008}],
     },
     "C13": {
         "level": "exploration",
